@@ -76,7 +76,7 @@ def run_mode(src, mode):
     plrun.reset_state()
     atoms = None
     try:
-        with plrun.captured_output():
+        with plrun.captured_output(), cw.scratch_cwd():
             if mode == "maxsat":
                 dag = _ground_dag(src, True)
                 atoms = cw.atoms_of(dag)
@@ -490,6 +490,7 @@ KNOWN_CLASSES = {
     "neg_under_cycle": lambda case, failure: gp.neg_under_active_cycle(case["prog"]),
     "ad_cyclic_complement": lambda case, failure: gp.cyclic_multihead_ad_with_complementary_body(case["prog"]),
     "shared_var_call": lambda case, failure: gp.shared_var_call(case["prog"]),
+    "cyclic_or_complement": lambda case, failure: gp.cyclic_body_disjunction_with_complement(case["prog"]),
     "semiring_unsupported_structure": semiring_unsupported_structure,
     "semiring_single_literal_evidence": semiring_single_literal_evidence,
 }
